@@ -379,6 +379,30 @@ func H07_mixed() {
 	h07Compare(prog, args)
 }
 
+// H07_len: %l replaces its string operand by the length - whatever lies beneath it on the
+// stack is what the next operator sees.
+func H07_len() {
+	str := vsymString("s", vsymChoice("slen", 4))
+	v := vsymInt("v")
+	vsymAssume(vsymAnd(v >= 0, v <= vsymParam("maxint", 1023)))
+	var prog string
+	var args []interface{}
+	switch vsymChoice("shape", 5) {
+	case 0:
+		prog, args = "%p1%p2%l%+%d", []interface{}{v, str}
+	case 1:
+		prog, args = "%{7}%p1%l%*%d", []interface{}{str}
+	case 2:
+		prog, args = "%?%{2}%p1%l%>%tyes%eno%;", []interface{}{str}
+	case 3:
+		prog, args = "%p2%p1%l%d,%d", []interface{}{str, v}
+	case 4:
+		prog, args = "%p1%l%p1%l%+%d%p1%s", []interface{}{str}
+	}
+	rtReset()
+	h07Compare(prog, args)
+}
+
 func H07_robust() {
 	n := vsymParam("n", 4)
 	prog := vsymString("prog", n)
